@@ -123,6 +123,8 @@ class C08(core.Check):
             ("tymer", (0, 0, 32, 32), (None, None, None), (("restart", 5), ("wind", 1), ("tick", 1))),
             ("tymer", (10, 7, 1, 1), (0, 5, None), (("tyme", 0, 15), ("restart", None), ("tyme", 0, 3), ("restart", None), ("tyme", 0, 25))),
             ("tymer", (10, 7, 1, 1), (None, 5, None), (("start", None, None), ("tick", 0))),
+            # re-winding with the very closure the tymer already holds (kept / read back) begins a fresh period (C08-r3m1 class)
+            ("tymer", (0, 0, 512, 32), (0, 2048, None), (("tick", 0), ("tick", 0), ("tick", 0), ("wind", 0), ("tick", 0), ("restart", None), ("windh",), ("windf", 0))),
             # C08-H1 (fixed efaf005): a rejected start() on an unwound tymer must leave it usable
             ("tymer", (5376, 2048, 1024, 1), (None, 0, None), (("start", 0, None),)),
             ("tymer", (15, -9, 1, 32), (None, 15, None), (("start", None, None), ("wind", 1), ("tick", 1), ("restart", None))),
@@ -171,6 +173,18 @@ class C08(core.Check):
                 yield T.gen_mono(rng)
 
     def request(self, case):
+        if case[0] == "tymer":
+            # the model knows one `wind i`; which closure object carries it (kept / fresh / read back) is the adapter's business
+            cur, ops = case[2][0], []
+            for op in case[3]:
+                if op[0] in ("wind", "windf"):
+                    cur = op[1]
+                    ops.append(("wind", op[1]))
+                elif op[0] == "windh":
+                    ops.append(("wind", cur) if cur is not None else ("start", None, None))
+                else:
+                    ops.append(op)
+            return case[:3] + (tuple(ops),)
         if case[0] in ("fmono", "fptimer"):
             return T.wrapF(case)
         if case[0] != "ftymer":
@@ -245,7 +259,7 @@ class C08(core.Check):
         if len(ops) < 2:
             return False
         if case[0] == "tymer":
-            return any(o[0] in ("start", "restart", "wind") for o in ops)
+            return any(o[0] in ("start", "restart", "wind", "windf", "windh") for o in ops)
         return any(d < 0 for d in case[2]) or any(o[0] in ("start", "restart") for o in ops)
 
     def features(self, case, obs):
